@@ -143,6 +143,11 @@ class Explorer:
             return True
         if z3.is_false(sc):
             return False
+        # already decided on this path (syntactically the same condition)?  no solver call, no record
+        if cond.get_id() in self._asserted:
+            return True
+        if z3.Not(cond).get_id() in self._asserted:
+            return False
         self._tick()
         self.log.append(cond)
         if self.pos < len(self.decisions):
@@ -508,7 +513,18 @@ class SF(RealFraction):
     def _nope(s, *a, **k):
         raise HarnessError("unmodelled Fraction operation on a symbolic rational")
 
-    __floordiv__ = __rfloordiv__ = __mod__ = __rmod__ = __divmod__ = __rdivmod__ = _nope
+    def __mod__(s, o):
+        # integer-valued proxies only (round indices): the value is concretised by forking
+        if not isinstance(o, int):
+            raise HarnessError("symbolic % non-int")
+        return s.__index__() % o
+
+    def __floordiv__(s, o):
+        if not isinstance(o, int):
+            raise HarnessError("symbolic // non-int")
+        return s.__index__() // o
+
+    __rfloordiv__ = __rmod__ = __divmod__ = __rdivmod__ = _nope
     __ceil__ = as_integer_ratio = __reduce__ = __copy__ = __deepcopy__ = _nope
     __rpow__ = _nope
 
@@ -745,6 +761,8 @@ class Ctx:
         return int(RealFraction(self.model[name]))
 
     def choose(self, n):
+        if n > 1:
+            self.real_choices = getattr(self, "real_choices", 0) + 1
         if self.sym:
             return self.ex.choose(n)
         if n <= 1:
